@@ -3,7 +3,7 @@ from hypothesis import strategies as st
 
 from ..runner import Violation, unexpected, digest
 from ..ref import b58, bech32 as B32, compact as RC, hashes as H, script as S, secp
-from .. import libx
+from .. import libx, gen
 
 import bitcoin
 import bitcoin.core
@@ -408,7 +408,27 @@ def t_matrix(ctx):
         for ver in range(1, 17):
             for L in (2, 20, 32, 40):
                 ctx.run({'steps': [{'chain': chain, 'act': 'parse', 'text': B32.encode(RC.CHAINS[chain]['hrp'], ver, bytes(L)), 'tag': 'witver'}]})
-    ctx.exhaustive.append('4 chains x 4 chains x 4 templates cross matrix; witness versions 1..16 x 4 lengths on each chain')
+    # text that LOOKS like a valid address of the selected chain: every character of a valid address (both renderings of the
+    # bech32 ones) replaced by each of its look-alike code points; and private keys (WIF) of every chain - not addresses
+    n_look = 0
+    for chain in libx.CHAINS:
+        texts = []
+        for t in ('p2pkh', 'p2sh', 'p2wpkh', 'p2wsh'):
+            for pl in ((h32_ if t == 'p2wsh' else h20_), bytes([0x4b, 0x96, 0x2c, 0x6f] * 8)[:32 if t == 'p2wsh' else 20]):
+                x = ref_text(chain, t, pl)
+                texts += [x, x.upper()] if t.startswith('p2w') else [x]
+        for x in texts:
+            for c in sorted(set(x)):
+                for y in gen.confusables(c):
+                    ctx.run({'steps': [{'chain': chain, 'act': 'parse', 'text': x.replace(c, y), 'tag': 'look-alike'},
+                                       {'chain': chain, 'act': 'parse', 'text': x.replace(c, y, 1), 'tag': 'look-alike'}]})
+                    n_look += 1
+        for ver in (128, 239, 0x80 ^ 0xff):
+            for sec in (bytes(range(1, 33)), b'\x00' * 31 + b'\x01', b'\xff' * 16 + b'\x01' * 16):
+                for tail in (b'', b'\x01'):
+                    ctx.run({'steps': [{'chain': chain, 'act': 'parse', 'text': b58.check_encode(ver, sec + tail), 'tag': 'wif-secret'}]})
+    ctx.exhaustive.append('4 chains x 4 chains x 4 templates cross matrix; witness versions 1..16 x 4 lengths on each chain; %d look-alike '
+                          'substitutions into valid addresses (lower- and upper-case renderings); WIF private keys of every chain as text' % n_look)
 
 
 TASKS = [('histories', (t_histories, 14)), ('matrix', (t_matrix, 1))]
